@@ -619,6 +619,24 @@ func (s *Sim) opDumpLoad(op *Op) {
 		return
 	}
 	s.C.Checks["dump.roundtrip"]++
+	{
+		// dumping a world without any entity (a fresh one, or one that was reset) is an ordinary
+		// read: the world is unlocked afterwards
+		we := ecs.NewWorld(2)
+		if op.N%2 == 1 {
+			we.NewEntity()
+			we.NewEntity()
+			we.Reset()
+		}
+		if p, val := s.call(func() { we.Unsafe().DumpEntities() }); p {
+			s.violate("C17", "dump.load", "empty_world", false, "DumpEntities of an empty world panicked: %v", val)
+			return
+		}
+		if we.IsLocked() {
+			s.violate("C07", "lock.release", "dump_empty_world", false, "the world is locked after DumpEntities of a world without entities, although no query is open")
+			return
+		}
+	}
 	dump := s.W.Unsafe().DumpEntities()
 	// through JSON, as a serializer would do
 	if op.N%2 == 0 {
